@@ -221,6 +221,74 @@ pub fn families() -> Vec<Box<dyn Family>> {
             },
         ),
         family(
+            "huge_runs",
+            "hand-built valid op lists whose EQUAL RUNS are astronomically long (usize::MAX/2 - 1, MAX/2, MAX/2 + 1, MAX/2 + 7, 3 * 2^62, 2^32 + 1 next to runs of 1, 2, 5; the lengths of one list sum to less than usize::MAX) with 1..3 changes at every position relative to the long run x EVERY n of the radius list (0..13, 100, MAX/2, MAX/2+1, MAX-1, MAX): radius and run length are both beyond MAX/2 in many combinations",
+            true,
+            4,
+            |cfg| if cfg.tiny { 8 } else { 6 * 4 * 3 * 4 },
+            |idx, _cfg, out| {
+                let half = usize::MAX / 2;
+                let bigs = [half - 1, half, half + 1, half + 7, 3usize << 62, (1usize << 32) + 1];
+                let smalls = [1usize, 2, 5, (1usize << 32) + 1];
+                let big = bigs[(idx % 6) as usize];
+                let small = smalls[(idx / 6 % 4) as usize];
+                let layout = idx / 24 % 3; // where the long run sits: leading / between two changes / trailing
+                let kind = idx / 72 % 4;
+                let change = |o: usize, n: usize| -> (DiffOp, usize, usize) {
+                    match kind {
+                        0 => (DiffOp::Delete { old_index: o, old_len: 1, new_index: n }, 1, 0),
+                        1 => (DiffOp::Insert { old_index: o, new_index: n, new_len: 2 }, 0, 2),
+                        2 => (DiffOp::Replace { old_index: o, old_len: 1, new_index: n, new_len: 1 }, 1, 1),
+                        _ => (DiffOp::Replace { old_index: o, old_len: 2, new_index: n, new_len: 3 }, 2, 3),
+                    }
+                };
+                // runs in order; a 0 means "no equal run here"
+                let runs: [usize; 3] = match layout {
+                    0 => [big, small, 0],
+                    1 => [small, big, small],
+                    _ => [0, small, big],
+                };
+                // keep the total below usize::MAX
+                if runs.iter().fold(0usize, |acc, x| acc.saturating_add(*x)).saturating_add(64) == usize::MAX {
+                    return;
+                }
+                let (mut o, mut n) = (3usize, 1usize);
+                let mut ops: Vec<DiffOp> = Vec::new();
+                for (i, r) in runs.iter().enumerate() {
+                    if *r > 0 {
+                        ops.push(eq_op(o, n, *r));
+                        o += *r;
+                        n += *r;
+                    }
+                    if i < 2 {
+                        let (op, dl, il) = change(o, n);
+                        ops.push(op);
+                        o += dl;
+                        n += il;
+                    }
+                }
+                out.sample(|| format!("ops={} x 14 radii", fmt_ops(&ops)));
+                out.nontrivial(&ops);
+                out.count("huge_run_lists");
+                for nn in NS {
+                    out.eval();
+                    let o2 = ops.clone();
+                    check_grouping("group_diff_ops", &ops, nn, guard(move || group_diff_ops(o2, nn)), out);
+                    out.eval();
+                    let o3 = ops.clone();
+                    let r = guard(move || {
+                        let mut c = Capture::new();
+                        for op in &o3 {
+                            op.apply_to_hook(&mut c).unwrap();
+                        }
+                        c.finish().unwrap();
+                        c.into_grouped_ops(nn)
+                    });
+                    check_grouping("Capture::into_grouped_ops", &ops, nn, r, out);
+                }
+            },
+        ),
+        family(
             "oplists_exh",
             "exhaustive small op lists: every alternating list of up to 5 ops with equal runs in {1,2,3} (quick) / {1,2,3,4,5} x up to 6 ops (thorough) and change kinds {Delete 1, Insert 1, Replace 1/2}, starting with either kind x n in {0,1,2,3}",
             true,
